@@ -30,20 +30,22 @@ static const char *astate[] = { "empty", "whole", "slice", "external" };
 
 enum { G_GET, G_GET_CONST, G_COPY_SRC, G_SWAP_A, G_SWAP_B, NG };
 static const char *gprobe[] = { "get", "get_const", "copy.src", "swap.a", "swap.b" };
-enum { U_GET, U_GET_CONST, U_RELEASE, U_SWAP_A, U_SWAP_B, U_RESET, U_ALLOC, NU_ };
-static const char *uprobe[] = { "get", "get_const", "release", "swap.a", "swap.b", "reset", "alloc" };
+enum { U_GET, U_GET_CONST, U_RELEASE, U_SWAP_A, U_SWAP_B, U_RESET, U_ALLOC, U_ALLOC_ZERO, NU_ };
+static const char *uprobe[] = { "get", "get_const", "release", "swap.a", "swap.b", "reset", "alloc", "alloc.zero-size" };
 enum { S_GET, S_GET_CONST, S_UNIQUE, S_SHARE_SRC, S_SHARE_DST, S_SWAP_A, S_SWAP_B, S_RESET, S_ALLOC, S_WEAK_FROM_SP, S_LOCK_SP,
-       S_SHARE_DST_COPY_OF_SRC, S_SHARE_DST_COPY_OF_COOWNER, S_SHARE_DST_EMPTY_SRC, S_LOCK_SP_SAME_BLOCK, NS_ };
+       S_SHARE_DST_COPY_OF_SRC, S_SHARE_DST_COPY_OF_COOWNER, S_SHARE_DST_EMPTY_SRC, S_LOCK_SP_SAME_BLOCK, S_ALLOC_ZERO, NS_ };
 static const char *sprobe[] = { "get", "get_const", "unique", "share.src", "share.dst", "swap.a", "swap.b", "reset", "alloc",
                                 "weak_from.sp", "weak_lock.sp", "share.dst-is-copy-of-src", "share.dst-is-copy-of-coowner",
-                                "share.dst.src-empty", "weak_lock.sp-refers-to-same-block" };
+                                "share.dst.src-empty", "weak_lock.sp-refers-to-same-block", "alloc.zero-size" };
 enum { WP_FROM_WP, WP_LOCK_WP, WP_SWAP_A, WP_SWAP_B, WP_RESET, WP_FROM_WP_SAME_BLOCK, NW_ };
 static const char *wprobe[] = { "from.wp", "lock.wp", "swap.a", "swap.b", "reset", "from.wp-already-refers-to-sp-block" };
 enum { A_ALLOC, A_SET, A_RELEASE, A_DATA, A_DATA_CONST, A_AT, A_AT_CONST, A_SLICE_A, A_SLICE_S, A_SLICE_INPLACE,
-       A_UNSLICE_S, A_UNSLICE_A, A_UNSLICE_INPLACE, A_RESET, A_SLICE_S_COPY_OF_A, A_UNSLICE_A_COPY_OF_S, NA_ };
+       A_UNSLICE_S, A_UNSLICE_A, A_UNSLICE_INPLACE, A_RESET, A_SLICE_S_COPY_OF_A, A_UNSLICE_A_COPY_OF_S,
+       A_ALLOC_UNREPRESENTABLE, A_ALLOC_ZERO, A_SET_NULL, NA_ };
 static const char *aprobe[] = { "alloc", "set", "release", "data", "data_const", "at", "at_const", "slice.a", "slice.s",
                                 "slice.inplace", "unslice.s", "unslice.a", "unslice.inplace", "reset",
-                                "slice.s-is-copy-of-a", "unslice.a-is-copy-of-s" };
+                                "slice.s-is-copy-of-a", "unslice.a-is-copy-of-s",
+                                "alloc.unrepresentable-size", "alloc.zero-elements", "set.null-buffer" };
 
 struct cell { int kind, state, way, probe; };
 static struct cell cells[4096];
@@ -141,7 +143,8 @@ static void cell_unique(const struct cell *c)
     case U_SWAP_A: ab = VRT_ABORTS(cstl_unique_ptr_swap(x, other)); break;
     case U_SWAP_B: ab = VRT_ABORTS(cstl_unique_ptr_swap(other, x)); break;
     case U_RESET: ab = VRT_ABORTS(cstl_unique_ptr_reset(x)); break;
-    default: ab = VRT_ABORTS(cstl_unique_ptr_alloc(x, 8, NULL, NULL)); break;
+    case U_ALLOC: ab = VRT_ABORTS(cstl_unique_ptr_alloc(x, 8, NULL, NULL)); break;
+    default: ab = VRT_ABORTS(cstl_unique_ptr_alloc(x, 0, NULL, NULL)); break;
     }
     must_abort(ab, c, ustate[c->state], uprobe[c->probe]);
     VRT_OP0("unique_ptr.reset", "original / proper objects after the stray probe");
@@ -196,6 +199,7 @@ static void cell_shared(const struct cell *c)
     case S_WEAK_FROM_SP: ab = VRT_ABORTS(cstl_weak_ptr_from(wk, x)); break;
     case S_LOCK_SP: case S_LOCK_SP_SAME_BLOCK: ab = VRT_ABORTS(cstl_weak_ptr_lock(wk, x)); break;
     case S_SHARE_DST_EMPTY_SRC: ab = VRT_ABORTS(cstl_shared_ptr_share(other, x)); break;
+    case S_ALLOC_ZERO: ab = VRT_ABORTS(cstl_shared_ptr_alloc(x, 0, NULL)); break;
     case S_SHARE_DST_COPY_OF_COOWNER:
         /* the stray destination refers to the very control block the source owns */
         ab = VRT_ABORTS(cstl_shared_ptr_share(co, x)); break;
@@ -288,6 +292,10 @@ static void cell_array(const struct cell *c)
     case A_UNSLICE_A: ab = VRT_ABORTS(cstl_array_unslice(other, x)); break;
     case A_UNSLICE_INPLACE: ab = VRT_ABORTS(cstl_array_unslice(x, x)); break;
     case A_RESET: ab = VRT_ABORTS(cstl_array_reset(x)); break;
+    /* requests that take the rarely used paths of alloc/set must still look at the pointer first */
+    case A_ALLOC_UNREPRESENTABLE: ab = VRT_ABORTS(cstl_array_alloc(x, SIZE_MAX / 4, 8)); break;
+    case A_ALLOC_ZERO: ab = VRT_ABORTS(cstl_array_alloc(x, 0, 8)); break;
+    case A_SET_NULL: ab = VRT_ABORTS(cstl_array_set(x, NULL, 0, 8)); break;
     case A_SLICE_S_COPY_OF_A:
         /* `s = a; cstl_array_slice(&a, i, j, &s)`: the stray destination shares the source's control block */
         if (o == NULL || c->state == 0) { applicable = 0; ab = 1; break; }
